@@ -13,6 +13,8 @@ CLAIMS = {
              note='SC only; reader spin-wait loops beyond U iterations excluded (blocking by design for slots==1)', ref='4 C14'),
  'C15': dict(text='Bounded, solver-decided: marked_ptr round trip for every mark width 0..32 and three upper/lower splits over all 64-bit pointer/mark values (one query); symbolic sequences of guard operations vs a reference model for hazard_pointer, hazard_eras, epoch based and lock_free_ref_count (all twelve configurations in thorough).',
              note='sequence length 3 (quick) / 4 (thorough); single thread; the concurrent snapshot clause is exercised by C01 scenarios', ref='4 C15'),
+ 'C03': dict(text='PARTIAL (race-freedom half only): the concurrent scenarios of the deque, seqlock, left_right and the hazard_pointer / lock_free_ref_count reader-writer clients (plus queues and epoch based in thorough) are re-run with a happens-before oracle: vector clocks over operation positions are terms, synchronisation is generated exactly by the memory orders, RMW release sequences and fences written in the IR, and every plain access to a heap/global cell is checked against the last conflicting access of every other thread. A weakening that creates a C++11 data race on a plain object is reported (e.g. relaxed instead of acquire on the deque capacity).',
+             note='only SC interleavings are explored: weak executions without a data race on a plain object (store buffering between atomics, dropped seq_cst fences) are OUTSIDE this check; production build variant only (not TSAN_MEMORY_ORDER); 2 threads, K=2-3', ref='10.2 C03'),
  'C02': dict(text='Bounded, solver-decided for hazard_pointer: two threads retire nodes with stateful custom deleters (one node guarded by the other thread), exit (thread-local destructors and hand-over of pending nodes run inside the model), a later generation flushes; census: each retired node destroyed exactly once by its own deleter. Other schemes and a cross-guard variant in the thorough tier.',
              note='2 threads + flushing generation, K=2; SC only; std algorithm stubs; the cross-guard variant currently ends inconclusive (ENGINE-FAULT, DESIGN.md 10.5)', ref='10.2 C02'),
  'C04': dict(text='Bounded, solver-decided for michael_scott_queue (reclaimer lock_free_ref_count): producer/consumer interleavings with K=2-3 rounds of solver-chosen context switches; conservation, no duplication, FIFO order, legality of empty. ramalhete_queue / nikolaev_queue are attempted only in the thorough tier with 1 push || 1 pop (larger scenarios exceed the solver budget).',
@@ -27,6 +29,8 @@ CLAIMS = {
              note='std::mutex as blocking flag; wait loops beyond U spins outside the bound; SC only', ref='4 C13'),
  'C16': dict(text='Bounded, solver-decided progress obligations: a disturber thread may be stopped at ANY memory access (free final switch point); the observed operation must finish within U loop iterations (reachability of its unwinding flags is posed to the solver). Michael-Scott queue, Kirsch bounded k-FIFO, deque steal, seqlock(slots=2) load, left_right read, hazard pointer guard acquire; sequential instance: vyukov_hash_map::try_get_value among colliding non-trivial keys.',
              note='2 threads, K=2 (3 in thorough), U=3-8; blocking operations excluded as documented', ref='10.2 C16'),
+ 'C17': dict(text='Three thread generations per scheme: sequential generations (HP, HE, EBR, QSBR, stamp-it; deterministic, decided by constant folding) must not allocate bookkeeping beyond the first generation and must keep the census of retired nodes exact across control-block reuse; overlapping generations (hazard_pointer, K=2 with symbolic context switches incl. inside thread exit/adoption): bounded bookkeeping, exact census, no use after free.',
+             note='weak for the sequential part (no solver variables); the solver-decided part is the 2-thread overlap for hazard_pointer (hazard_eras and K=3 in thorough); 3 overlapping threads are outside the bound', ref='10.2 C17'),
  'C18': dict(text='Bounded, solver-decided: symbolic guard-operation sequences against slot accounting invariants for static/dynamic hazard_pointer and hazard_eras incl. exhaustion (exceptions are modelled) and slot reuse.',
              note='K in {1,2,3}; 3 guards; sequence length 2-4; protection = published slot (representation invariant), scans honouring slots is C01', ref='4 C18'),
 }
